@@ -92,6 +92,11 @@ def trace_validate(chk, module, trace_path, describe, timeout=900, env=None):
         out = describe(rec, extra) if extra is not None else describe(rec)
         sig, desc = out[0], out[1]
         case = {"trace_record": rec, "trace_spec": module, "trace_index": idx}
+        # what the trace specification read besides the trace (catalogue, baseline, world, mode): kept with the case so
+        # that a replay does not depend on the work directory of the run that found it
+        case["env"] = {k: v for k, v in (env or {}).items() if not os.path.exists(str(v))}
+        case["env_files"] = {k: open(v).read() for k, v in (env or {}).items()
+                             if os.path.isfile(str(v)) and os.path.getsize(v) < 400000}
         if len(out) > 2:
             case.update(out[2])
         chk.violate(sig, desc, case)
@@ -140,6 +145,12 @@ def replay(chk, pid, path):
             env["CATALOGUE"] = os.path.join(d, "catalogue.json")
         if pid == "C15":
             env["BASELINE"] = os.path.join(d, "baseline.json")
+        env.update(case.get("env") or {})
+        for k, text in (case.get("env_files") or {}).items():
+            fp = os.path.join(d, "replay-env-%s.json" % k)
+            with open(fp, "w") as f:
+                f.write(text)
+            env[k] = fp
         trace_validate(chk, case["trace_spec"], tpath, generic, env=env)
         chk.rule = "replay: the recorded observation re-validated by %s (the scenario itself is re-executed by the quick check)" % case["trace_spec"]
     else:
@@ -902,9 +913,18 @@ def check_c18(chk, tier):
                 rp = os.path.join(p, "solstat_report.md")
                 if os.path.exists(rp):
                     os.remove(rp)
-                if h["init"][c] != "absent":
+                kind = h["init"][c]
+                if kind == "samelen":
+                    # other content of exactly the length of the report the first run in this directory will write
+                    first = next(((m, v) for (cc, m, v) in h["history"] if cc == c), None)
+                    target = clean["default" if first and first[1] == "default" else (first[0] if first else "full")]
+                    data = bytes((b ^ 1) if chr(b).isalnum() else b for b in target)
+                    if data and data != target:
+                        with open(rp, "wb") as f:
+                            f.write(data)
+                elif kind != "absent":
                     with open(rp, "wb") as f:
-                        f.write(stale[h["init"][c]])
+                        f.write(stale[kind])
             visited = set()
             for step_no, (c, mode, via) in enumerate(h["history"]):
                 before = bindrive.snapshot(root)
